@@ -203,20 +203,46 @@ def norm_4_5(ctx, rep):
 
 
 # ---------------------------------------------------------------------------
+def _tos_aliases(scope, attr='_indentation_tos'):
+    """locals that hold the top of the stack: assigned from self.<attr> (or from such a local's .parent together with the
+    attribute itself: `self.<attr> = x = x.parent`)"""
+    out = set()
+    if scope is None:
+        return out
+    for n in ast.walk(scope):
+        if isinstance(n, ast.Assign) and isinstance(n.value, ast.Attribute) and n.value.attr == attr:
+            out |= {t.id for t in n.targets if isinstance(t, ast.Name)}
+    return out
+
+
+def _scope_of(n):
+    p = n
+    while p is not None and not isinstance(p, (ast.FunctionDef, ast.AsyncFunctionDef)):
+        p = getattr(p, '_parent', None)
+    return p
+
+
+def _is_tos(e, aliases, attr='_indentation_tos'):
+    return (isinstance(e, ast.Attribute) and e.attr == attr) or (isinstance(e, ast.Name) and e.id in aliases)
+
+
 def _is_pop(n, attr='_indentation_tos'):
-    return isinstance(n, ast.Assign) and len(n.targets) == 1 and isinstance(n.targets[0], ast.Attribute) \
-        and n.targets[0].attr == attr and isinstance(n.value, ast.Attribute) and n.value.attr == 'parent' \
-        and isinstance(n.value.value, ast.Attribute) and n.value.value.attr == attr
+    if not (isinstance(n, ast.Assign) and any(isinstance(t, ast.Attribute) and t.attr == attr for t in n.targets)
+            and all(isinstance(t, (ast.Attribute, ast.Name)) for t in n.targets)):
+        return False
+    aliases = _tos_aliases(_scope_of(n), attr)
+    return isinstance(n.value, ast.Attribute) and n.value.attr == 'parent' and _is_tos(n.value.value, aliases, attr)
 
 
 def _is_push(n, attr='_indentation_tos'):
     if not (isinstance(n, ast.Assign) and len(n.targets) == 1 and isinstance(n.targets[0], ast.Attribute)
             and n.targets[0].attr == attr and isinstance(n.value, ast.Call)):
         return False
+    aliases = _tos_aliases(_scope_of(n), attr)
     for kw in n.value.keywords:
-        if kw.arg == 'parent' and isinstance(kw.value, ast.Attribute) and kw.value.attr == attr:
+        if kw.arg == 'parent' and _is_tos(kw.value, aliases, attr):
             return True
-    return any(isinstance(a, ast.Attribute) and a.attr == attr for a in n.value.args)
+    return any(_is_tos(a, aliases, attr) for a in n.value.args)
 
 
 def norm_6(ctx, rep):
@@ -255,9 +281,13 @@ def norm_6(ctx, rep):
             why = None
             # (a) guarded by a positive test on the type of the top node
             from ..facts import facts_at
+            type_aliases = {a_.targets[0].id for a_ in walk_own(f.node) if isinstance(a_, ast.Assign) and len(a_.targets) == 1
+                            and isinstance(a_.targets[0], ast.Name) and isinstance(a_.value, ast.Attribute)
+                            and a_.value.attr == 'type' and norm(a_.value.value) in aliases}
             for text, positive in sorted(facts_at(n, f.node)):
                 if positive and ' | ' not in text and ' == IndentationTypes.' in text \
-                        and any(text.startswith(a + '.type == ') for a in aliases):
+                        and (any(text.startswith(a + '.type == ') for a in aliases)
+                             or any(text.startswith(a + ' == ') for a in type_aliases)):
                     why = 'guarded by %s' % text
                     break
             # (c) one half of a push/pop pair under one recognition guard (either orientation of the test)
@@ -358,6 +388,18 @@ NORM12_REASONED = {
 }
 
 
+NORM12_FACT_REASONED = [
+    ('BracketNode.__init__', r'parent\.type == IndentationTypes\.SUITE',
+     'reached only when parent.type is SUITE: the ancestor search stops at once for a node without a `leaf` that is no '
+     'BracketNode, so the indentation read from it is the suite\'s own string'),
+    ('BracketNode.__init__', r'self\.indentation == .+',
+     'guarded by an equality of self.indentation with a string concatenation, which is False for None'),
+    ('PEP8Normalizer._visit_node', r"typ == 'suite'",
+     'a suite starts at statement level: the top of the stack is the root or a suite node (a pending backslash node is '
+     'popped on the line above), whose indentation is built from strings only'),
+]
+
+
 def norm_12(ctx, rep):
     rep.rule('NORM-12', 'the indentation attributes of the PEP 8 indentation stack can be None (tabs: no visual indentation); '
                         'a value read from them is measured with len(), concatenated or searched only where it is known not to '
@@ -442,10 +484,21 @@ def norm_12(ctx, rep):
                         uses.append((n, side, '+'))
             elif isinstance(n, ast.AugAssign) and isinstance(n.op, ast.Add) and source(n.target) is not None:
                 uses.append((n, n.target, '+='))
+        from ..model import xnorm, expand_aliases
+        type_alias = {}
+        for a_ in walk_own(f.node):
+            if isinstance(a_, ast.Assign) and len(a_.targets) == 1 and isinstance(a_.targets[0], ast.Name) \
+                    and isinstance(a_.value, ast.Attribute) and a_.value.attr == 'type':
+                type_alias[a_.targets[0].id] = norm(a_.value)
         for node, src, how in uses:
             n_sites += 1
             text = norm(src)
-            facts = facts_at(node, f.node)
+            facts = set(facts_at(node, f.node))
+            # facts written through a local that holds <x>.type
+            for t_, pol in list(facts):
+                for al, full in type_alias.items():
+                    if t_.startswith(al + ' == ') or t_.startswith(al + ' in '):
+                        facts.add((full + t_[len(al):], pol))
             safe = None
             if (text + ' is None', False) in facts:
                 safe = '`%s is not None` holds here' % text
@@ -461,7 +514,18 @@ def norm_12(ctx, rep):
                         recv = norm(a.value.value)
                         if ('%s.type == IndentationTypes.SUITE' % recv, True) in facts:
                             safe = '%s is a suite node' % recv
+            # reasoned exceptions, keyed by the facts that make them sound (not by how the operands are spelled)
+            if safe is None:
+                for (qual, fact_text, reason) in NORM12_FACT_REASONED:
+                    if f.qual == qual and any(pol and _re.fullmatch(fact_text, t_) for t_, pol in facts):
+                        safe = reason
+                        break
             key = (f.qual, norm(node))
+            if safe is None and key not in NORM12_REASONED:
+                # the same construct written through read-only aliases (config_indentation = config.indentation ...)
+                key = (f.qual, xnorm(f.node, node))
+                key = (key[0], key[1].replace('indentation_tos.', 'self._indentation_tos.').replace('self.self.', 'self.')
+                       .replace(' config.', ' self._config.') if f.qual.startswith('PEP8Normalizer') else key[1])
             if safe is None and key in NORM12_REASONED:
                 safe = NORM12_REASONED[key]
             rep.ob('NORM-12', PEP8, f.qual, '%s of %s in `%s`' % (how, text, norm(node)[:90]), safe is not None,
@@ -507,7 +571,8 @@ def norm_11(ctx, rep):
                     reset.add(x.id)
     offset_vars = {n.targets[0].id for n in ast.walk(loop) if isinstance(n, ast.Assign) and isinstance(n.targets[0], ast.Name)
                    and isinstance(n.value, ast.Call) and isinstance(n.value.func, ast.Attribute) and n.value.func.attr == 'end'}
-    per_iteration = {t.id for s in loop.body if isinstance(s, ast.Assign) for t in s.targets if isinstance(t, ast.Name)}
+    per_iteration = {x.id for s in loop.body if isinstance(s, ast.Assign) for t in s.targets for x in ast.walk(t)
+                     if isinstance(x, ast.Name) and isinstance(x.ctx, ast.Store)}
     per_iteration -= offset_vars
     n_sites = 0
     for n in walk_own(f.node):
